@@ -145,7 +145,7 @@ def _generators():
         def __init__(self, script, Ts, shape=None, link=None):
             self._script = script
             self._link = script.new_link() if link is None else link
-            super().__init__(Fd=5.0, Ts=Ts, L=4, shape=shape)
+            super().__init__(Fd=5.0, Ts=Ts, L=4, shape=shape, RS=np.random.RandomState(0))   # (a module RS cannot be deep-copied)
 
         def generate_more_samples(self, num_samples=None):
             t = self._generate_time_samples(num_samples)
@@ -306,13 +306,15 @@ def case_line(case):
             toks.append('reject:ValueError')
         elif k == 'pl':
             if mu:
-                toks.append('pl:' + ';'.join(','.join(r) for r in op['s']))
+                toks.append('pl:none' if op['s'] is None else 'pl:' + ';'.join(','.join(r) for r in op['s']))
             else:
                 toks.append('pl:' + ('none' if op['s'] is None else op['s']))
         elif k == 'setant':
             toks.append('setant:' + ('0' if op['ant'] is None else '%dx%d' % tuple(op['ant'])))
         elif k == 'gen':
             toks.append('gen:%d' % op['n'])
+        elif k in ('query', 'fork'):
+            toks.append('q')
         elif k in ('tx', 'fx'):
             sc = op.get('scale', 0)
             xs = '|'.join(xs2s(x, sc) for x in op['x']) if mu else xs2s(op['x'], sc)
@@ -353,18 +355,31 @@ def build_profile(case):
     return prof
 
 
+def np_int(v, t):
+    """R9: an index / count in the given integer representation"""
+    if t in (None, 'int'):
+        return int(v)
+    if t == 'arr0d':
+        return np.array(int(v))
+    return getattr(np, t)(int(v))
+
+
 def build_channel(case):
     """the real object of a scenario.  `real` scenarios use the untouched generators and a dB profile,
-    the others scripted fading and perfect-square powers."""
+    the others scripted fading and perfect-square powers.  R8: the constructor arguments are given
+    positionally or by keyword, as a discretised profile object / a profile object plus Ts / tap arrays
+    plus Ts, through the convenience classes (SuMimoChannel, TdlMimoChannel) or the plain ones."""
     from pyphysim.channels import fading, fading_generators as fg, singleuser, multiuser
     Ts = case['Ts']
     ant = case['ant']
     real = bool(case.get('real'))
+    form = case.get('ctor', 'profile')
+    kw = bool(case.get('ctor_kw'))
     if real:
         np.random.seed(case['npseed'])
         p0, d0 = profile_arrays(case, case['powers_dB'])
         prof = fading.TdlChannelProfile(p0, d0)
-        if case.get('prediscretized', True):
+        if form == 'profile' and case.get('prediscretized', True):
             prof = prof.get_discretize_profile(Ts)
 
         def newgen(shape):
@@ -372,34 +387,62 @@ def build_channel(case):
                 return fg.JakesSampleGenerator(Fd=case.get('Fd', 30.0), Ts=Ts, L=case.get('L', 8), shape=shape,
                                                RS=np.random.RandomState(case['npseed']))
             return fg.RayleighSampleGenerator(shape=shape)
-        tsarg = None if (case['jakes'] or prof.is_discretized) else Ts
     else:
         ScriptedRayleigh, ScriptedJakes = _generators()
-        prof = build_profile(case)
+        if form == 'profile':
+            prof = build_profile(case)
+        else:
+            assert case['amps'] == ['1'] and len(case['delays']) == 1, 'exact only for one 0 dB tap'
+            p0, d0 = profile_arrays(case, np.zeros(1))
+            prof = fading.TdlChannelProfile(p0, d0)
         script = Script(case['seed'], first_link=-1 if case['level'] == 'mu' else case['link'])
 
         def newgen(shape):
             return ScriptedJakes(script, Ts, shape=shape) if case['jakes'] else ScriptedRayleigh(script, shape=shape)
-        tsarg = None
+    # the profile part of the argument list
+    tsarg = None if (case['jakes'] and not case.get('ts_explicit')) or (form == 'profile' and prof.is_discretized
+                                                                         and not case.get('ts_explicit')) else Ts
+    if form == 'arrays':
+        pa, da = (p0, d0)
+        prof_pos, prof_kw = (None, pa, da, tsarg), {'tap_powers_dB': pa, 'tap_delays': da, 'Ts': tsarg}
+    else:
+        prof_pos, prof_kw = (prof, None, None, tsarg), {'channel_profile': prof, 'Ts': tsarg}
+    if case.get('ctor_omit_defaults') and form != 'arrays' and tsarg is None:
+        prof_pos, prof_kw = (prof,), {'channel_profile': prof}
+
+    def make(cls, first_pos, first_kw):
+        return cls(**dict(first_kw, **prof_kw)) if kw else cls(*(first_pos + prof_pos))
     if case['level'] == 'mu':
         gen = newgen(None)          # the prototype (scripted: link -1); links get similar generators
-        N = (case['nrx'], case['ntx'])
+        N = (np_int(case['nrx'], case.get('n_type')), np_int(case['ntx'], case.get('n_type')))
         if case['nrx'] == case['ntx'] and case.get('n_as_int'):
-            N = case['nrx']
+            N = np_int(case['nrx'], case.get('n_type'))
         if ant is None:
-            ch = multiuser.MuChannel(N, gen, channel_profile=prof, Ts=tsarg)
+            ch = make(multiuser.MuChannel, (N, gen), {'N': N, 'fading_generator': gen})
         else:
-            ch = multiuser.MuMimoChannel(N, ant[0], ant[1], gen, channel_profile=prof, Ts=tsarg)
+            a0, a1 = np_int(ant[0], case.get('ant_type')), np_int(ant[1], case.get('ant_type'))
+            ch = make(multiuser.MuMimoChannel, (N, a0, a1, gen),
+                      {'N': N, 'num_rx_antennas': a0, 'num_tx_antennas': a1, 'fading_generator': gen})
         ch._verif_proto = gen
         return ch
+    wrapper = bool(case.get('wrapper')) and ant is not None and not case.get('late_ant')
+    if wrapper and case['level'] == 'su' and ant[0] == ant[1]:
+        gen = newgen(None)
+        na = np_int(ant[0], case.get('ant_type'))
+        return make(singleuser.SuMimoChannel, (na, gen), {'num_antennas': na, 'fading_generator': gen})
     shape = None if (ant is None or case.get('late_ant')) else tuple(ant)
     gen = newgen(shape)
     if case['level'] == 'tdl':
-        ch = fading.TdlChannel(gen, channel_profile=prof, Ts=tsarg)
+        cls = fading.TdlMimoChannel if (wrapper and shape is not None) else fading.TdlChannel
+        ch = make(cls, (gen,), {'fading_generator': gen})
     else:
-        ch = singleuser.SuChannel(gen, channel_profile=prof, Ts=tsarg)
+        ch = make(singleuser.SuChannel, (gen,), {'fading_generator': gen})
     if ant is not None and case.get('late_ant'):
-        ch.set_num_antennas(ant[0], ant[1])
+        a0, a1 = np_int(ant[0], case.get('ant_type')), np_int(ant[1], case.get('ant_type'))
+        if kw:
+            ch.set_num_antennas(num_rx_antennas=a0, num_tx_antennas=a1)
+        else:
+            ch.set_num_antennas(a0, a1)
     return ch
 
 
@@ -428,6 +471,21 @@ def make_signal(case, op):
     if not mu:
         return layout_view(one(op['x']), op.get('layout', 'c'))
     parts = [one(x) for x in op['x']]
+    if op.get('hetero'):
+        # R10: a list whose elements differ in element type (and 1-D next to (1, n) for one-antenna streams)
+        out = []
+        for i, (x, a) in enumerate(zip(op['x'], parts)):
+            els = all_elems(x)
+            realv = all(e[1] == 0 for e in els)
+            cands = ['complex128', 'complex64'] + (['float64', 'float32'] + (['int16', 'int64'] if sc == 0 else [])
+                                                  if realv else [])
+            a = cast_signal(x2np(x, sc), cands[(i + op.get('hetero_rot', 0)) % len(cands)])
+            if siso:
+                a = a.reshape(-1)
+            elif a.shape[0] == 1 and (i + op.get('hetero_rot', 0)) % 2 == 0:
+                a = a[0]
+            out.append(layout_view(a, op.get('layout', 'c')) if i % 2 else a)
+        return out
     sig = np.array(parts) if parts else np.zeros((0, 0))
     if siso and sig.ndim == 2 and sig.shape[0] == 1 and op.get('as1d'):
         sig = sig[0]
@@ -526,45 +584,134 @@ def observe(ch, case):
     return obs
 
 
+def run_queries(ch, case, op):
+    """R11 / R13: calls that are documented as reads - none of them may change the object or any later result"""
+    import pickle
+    mu = case['level'] == 'mu'
+    tdl0, su0 = links_of(ch, case)[0]
+    if mu:
+        repr(ch)
+        ch.pathloss_matrix
+    for obj in ([ch] if not mu else [ch, su0]):
+        obj.num_taps
+        obj.num_taps_with_padding
+        obj.num_tx_antennas
+        obj.num_rx_antennas
+        obj.switched_direction
+        prof = obj.channel_profile
+    repr(prof)
+    (prof.name, prof.tap_powers_dB, prof.tap_powers_linear, prof.tap_delays, prof.num_taps, prof.Ts,
+     prof.is_discretized, prof.mean_excess_delay, prof.rms_delay_spread, prof.num_taps_with_padding)
+    pickle.loads(pickle.dumps(prof))
+    try:
+        prof.get_discretize_profile(prof.Ts)          # already discretised: must be refused, nothing changed
+    except RuntimeError:
+        pass
+    try:
+        ir = ch.get_last_impulse_response(0, 0) if mu else ch.get_last_impulse_response()
+    except RuntimeError:
+        return
+    from pyphysim.channels import fading
+    ir.get_freq_response(op.get('qfft', 4))
+    (ir.tap_values, ir.tap_values_sparse, ir.tap_indexes_sparse, ir.tap_delays_sparse, ir.Ts, ir.num_samples,
+     ir.channel_profile)
+    child = 2.0 * ir                                   # R13: a derived response
+    child2 = ir * 0.5
+    np.asarray(child.tap_values_sparse)[...] = 7.0     # mutate the child, the parent must not notice
+    fading.TdlImpulseResponse.concatenate_samples([ir, child2])
+    fading.TdlImpulseResponse.concatenate_samples([ir])
+    pickle.loads(pickle.dumps(child2)).tap_values
+
+
 def apply_op(ch, case, op, rec, patched):
-    """one operation on the real object; returns ('y', array) | ('ir', [responses]) | ('ok',)"""
+    """one operation on the real object; returns ('y', array) | ('ir', [responses]) | ('ok',) |
+    ('fork', new object).  R8: `kw` gives the arguments by keyword, `omit` leaves defaulted ones out."""
     k = op['op']
     mu = case['level'] == 'mu'
+    kw = bool(op.get('kw'))
     if k == 'ir':
         if mu:
-            irs = [ch.get_last_impulse_response(r, t) for r in range(case['nrx']) for t in range(case['ntx'])]
+            it = op.get('idx_type')
+            irs = []
+            for r in range(case['nrx']):
+                for t in range(case['ntx']):
+                    ri, ti = np_int(r, it), np_int(t, it)
+                    irs.append(ch.get_last_impulse_response(rx_idx=ri, tx_idx=ti) if kw
+                               else ch.get_last_impulse_response(ri, ti))
         else:
             irs = [ch.get_last_impulse_response()]
         for ir in irs:
             rec.returned('impulse-response', ir.tap_values_sparse)
         return ('ir', irs)
+    if k == 'query':
+        run_queries(ch, case, op)
+        return ('ok',)
+    if k == 'fork':
+        import copy
+        return ('fork', copy.deepcopy(ch))
     if k in ('sw', 'swbad'):
         ch.switched_direction = bool(op['v']) if k == 'sw' else op['v']
         return ('ok',)
     if k in ('pl', 'plbad'):
-        v = rec.passing('pathloss-matrix', make_plmatrix(op)) if mu else make_pl(op)
-        ch.set_pathloss(v)
+        if mu:
+            v = None if (op.get('s') is None and op.get('p') is None) else rec.passing('pathloss-matrix', make_plmatrix(op))
+            if kw:
+                ch.set_pathloss(pathloss_matrix=v)
+            else:
+                ch.set_pathloss(v)
+        else:
+            v = make_pl(op)
+            if v is None and op.get('omit'):
+                ch.set_pathloss()
+            elif kw:
+                ch.set_pathloss(pathloss_value=v)
+            else:
+                ch.set_pathloss(v)
         return ('ok',)
     if k == 'setant':
         a = op['ant']
-        ch.set_num_antennas(*(a if a is not None else (None, None)))
+        a = (None, None) if a is None else (np_int(a[0], op.get('ant_type')), np_int(a[1], op.get('ant_type')))
+        if kw:
+            ch.set_num_antennas(num_rx_antennas=a[0], num_tx_antennas=a[1])
+        else:
+            ch.set_num_antennas(*a)
         return ('ok',)
     if k == 'gen':
-        ch.generate_impulse_response(op['n'])
+        n = np_int(op['n'], op.get('n_type'))
+        if op['n'] == 1 and op.get('omit'):
+            ch.generate_impulse_response()
+        elif kw:
+            ch.generate_impulse_response(num_samples=n)
+        else:
+            ch.generate_impulse_response(n)
         return ('ok',)
-    sig = rec.passing('signal', make_signal(case, op))
+    sig = make_signal(case, op)
+    if isinstance(sig, list):
+        for a in sig:
+            rec.passing('signal', a)
+    else:
+        rec.passing('signal', sig)
     if k == 'tx':
-        y = ch.corrupt_data(sig)
-        against = (sig,)
+        y = ch.corrupt_data(signal=sig) if kw else ch.corrupt_data(sig)
+        against = tuple(sig) if isinstance(sig, list) else (sig,)
     else:
         idx = sel2py(op['sel'])
         rec.passing('carrier-indexes', idx)
+        fft = make_fft(op)
+
+        def call():
+            if idx is None and op.get('omit'):
+                return (ch.corrupt_data_in_freq_domain(signal=sig, fft_size=fft) if kw
+                        else ch.corrupt_data_in_freq_domain(sig, fft))
+            if kw:
+                return ch.corrupt_data_in_freq_domain(signal=sig, fft_size=fft, carrier_indexes=idx)
+            return ch.corrupt_data_in_freq_domain(sig, fft, idx)
         if patched:
             with patched_fft():
-                y = ch.corrupt_data_in_freq_domain(sig, make_fft(op), idx)
+                y = call()
         else:
-            y = ch.corrupt_data_in_freq_domain(sig, make_fft(op), idx)
-        against = (sig, idx)
+            y = call()
+        against = (tuple(sig) if isinstance(sig, list) else (sig,)) + (idx,)
     alias = rec.returned('received-signal', y, against)
     if alias:
         rec.inputs.append((alias, np.zeros(1), np.ones(1), float, None))      # reported by violations()
@@ -572,7 +719,7 @@ def apply_op(ch, case, op, rec, patched):
 
 
 def result_token(case, res):
-    if res[0] == 'ok':
+    if res[0] in ('ok', 'fork'):
         return 'ok'
     if res[0] == 'ir':
         return ' & '.join(ir2s(ir) for ir in res[1])
@@ -582,20 +729,23 @@ def result_token(case, res):
     return 'y=' + sig2s(y)
 
 
-CAUGHT = (ValueError, IndexError, ZeroDivisionError, RuntimeError, AssertionError, TypeError, OverflowError,
-          AttributeError)
-
-
 def run_impl(case):
     """drive the real objects through the whole history (a rejected call does not end it: R4);
-    returns the reply tokens in the driver's format; R3 violations are appended as extra tokens"""
-    ch = build_channel(case)
+    returns the reply tokens in the driver's format; R3 violations are appended as extra tokens.
+    Whatever the library raises becomes a token (a changed tree must give a verdict, not a harness error)."""
+    try:
+        ch = build_channel(case)
+    except Exception as e:      # noqa
+        return ['error:constructor:' + type(e).__name__]
     rec = Rec()
     out = []
     for op in case['ops']:
         try:
-            out.append(result_token(case, apply_op(ch, case, op, rec, True)))
-        except CAUGHT as e:
+            res = apply_op(ch, case, op, rec, True)
+            if res[0] == 'fork':
+                ch = res[1]             # R13: go on with the deep copy; the original is dropped
+            out.append(result_token(case, res))
+        except Exception as e:      # noqa
             out.append(err2s(e))
     out += ['R3:' + v for v in rec.violations()]
     return out
@@ -607,6 +757,7 @@ PLS = ['1', '1/2', '1/4', '3/4', '1/8', '0', '1/1048576', '1']
 TS_CHOICES = [1.0, 0.5, 0.25, 1e-3, 3.25e-8, 1e-9, 1024.0]
 SCALES = [0, 0, 0, -40, -20, 20, 40]
 FFT_TYPES = [None, None, None, 'int8', 'uint8', 'int16', 'uint16', 'int32', 'int64']
+NP_INTS = ['int8', 'uint8', 'int16', 'uint16', 'int32', 'int64', 'intp', 'arr0d']
 
 
 def gen_signal(rng, rows, n, lim=4, real=False):
@@ -707,9 +858,13 @@ def gen_ops(rng, case, nops, quick=True):
             ops.append({'op': 'swbad', 'v': rng.choice([1, 0, 'yes']), 'expect': 'reject'})
             continue
         if k in (2, 3) and level in ('su', 'mu'):
+            if mu and rng.chance(0.12):
+                ops.append({'op': 'pl', 's': None, 'kw': rng.chance(0.4)})          # set_pathloss(None)
+                continue
             if mu:
                 m = [[rng.choice(PLS) for _ in range(case['ntx'])] for _ in range(case['nrx'])]
-                op = {'op': 'pl', 's': m, 'pllayout': rng.choice(['c', 'f', 'T', 'strided', 'rowstrided'])}
+                op = {'op': 'pl', 's': m, 'pllayout': rng.choice(['c', 'f', 'T', 'strided', 'rowstrided']),
+                      'kw': rng.chance(0.4)}
                 if all(v in ('0', '1') for r in m for v in r):
                     op['pldtype'] = rng.choice(['int', 'float64'])
                 elif all(Fraction(v).denominator <= 1024 for r in m for v in r):
@@ -717,7 +872,7 @@ def gen_ops(rng, case, nops, quick=True):
                 ops.append(op)
             else:
                 s = None if rng.chance(0.15) else rng.choice(PLS)
-                op = {'op': 'pl', 's': s}
+                op = {'op': 'pl', 's': s, 'kw': rng.chance(0.4), 'omit': rng.chance(0.5)}
                 if s in ('0', '1'):
                     op['pltype'] = rng.choice([None, 'int', 'int8', 'uint8', 'int64', 'float32', 'float16', 'arr0d'])
                 elif s is not None and s != '1/1048576':
@@ -735,11 +890,18 @@ def gen_ops(rng, case, nops, quick=True):
             continue
         if k == 5 and level in ('tdl', 'su') and rng.chance(0.7):
             ant = None if rng.chance(0.3) else [rng.randint(1, 3), rng.randint(1, 3)]
-            ops.append({'op': 'setant', 'ant': ant})
+            ops.append({'op': 'setant', 'ant': ant, 'kw': rng.chance(0.4), 'ant_type': rng.choice([None] + NP_INTS)})
             continue
         if k == 6 and level == 'tdl' and rng.chance(0.6):
-            ops.append({'op': 'gen', 'n': rng.randint(1, 5)})
+            ops.append({'op': 'gen', 'n': rng.randint(1, 5), 'kw': rng.chance(0.4), 'omit': rng.chance(0.5),
+                        'n_type': rng.choice([None] + NP_INTS)})
             ops.append({'op': 'ir'})
+            continue
+        if k == 7 and rng.chance(0.8):
+            ops.append({'op': 'query', 'qfft': rng.randint(1, 9)})
+            continue
+        if k == 8 and rng.chance(0.35):
+            ops.append({'op': 'fork'})
             continue
         # a transmission
         siso = ant is None
@@ -761,7 +923,8 @@ def gen_ops(rng, case, nops, quick=True):
                 bad_shape = False
             if bad_shape:
                 expect = 'reject'
-        op = {'siso': siso, 'as1d': rng.chance(0.5), 'expect': expect}
+        op = {'siso': siso, 'as1d': rng.chance(0.5), 'expect': expect, 'kw': rng.chance(0.35),
+              'omit': rng.chance(0.5)}
         if k < 15:
             n = 0 if rng.chance(0.04) else rng.randint(1, 10 if quick else 24)
             xs = [gen_signal(rng, use_rows, n, real=real) for _ in range(use_src)]
@@ -788,11 +951,17 @@ def gen_ops(rng, case, nops, quick=True):
                        'fft_type': rng.choice(FFT_TYPES)})
             if op['fft_type'] == 'int8' and fft > 127:
                 op['fft_type'] = 'int16'
+            if mu and expect == 'ok' and rng.chance(0.35):
+                op['hetero'] = True                      # R10: a list of per-transmitter arrays of mixed types
+                op['hetero_rot'] = rng.below(4)
+                for row in op['x'][0]:                   # the first transmitter sends real values
+                    for e in row:
+                        e[1] = 0
         if cls:
             op['reject_class'] = cls
         signal_variants(rng, op, real, n)
         ops.append(op)
-        ops.append({'op': 'ir', 'expect': 'any'})
+        ops.append({'op': 'ir', 'expect': 'any', 'kw': rng.chance(0.4), 'idx_type': rng.choice([None] + NP_INTS)})
     return ops
 
 
@@ -814,6 +983,18 @@ def gen_case(rng, level, quick=True):
             case['ant'] = [rng.randint(1, 2), rng.randint(1, 2)]
     else:
         case['link'] = rng.below(50)
+    # R8 / R9: how the object is built
+    case['ctor_kw'] = rng.chance(0.4)
+    case['ctor_omit_defaults'] = rng.chance(0.5)
+    case['ts_explicit'] = rng.chance(0.3)
+    case['wrapper'] = rng.chance(0.5)
+    case['n_type'] = rng.choice([None, None] + NP_INTS[:-1])
+    case['ant_type'] = rng.choice([None, None] + NP_INTS[:-1])
+    if rng.chance(0.22):
+        # one 0 dB tap: exact whatever way the profile is handed over
+        case['delays'] = [rng.randint(0, 5)]
+        case['amps'] = ['1']
+        case['ctor'] = rng.choice(['profile+Ts', 'arrays', 'profile'])
     case['ops'] = gen_ops(rng, case, rng.randint(1, 7) if level != 'mu' else rng.randint(1, 5), quick)
     return case
 
@@ -828,6 +1009,7 @@ def real_twin_of(rng, case):
     if rng.chance(0.15):
         c['powers_dB'][rng.below(len(c['powers_dB']))] = off    # R5: 0 dB relative tap
     c['prediscretized'] = rng.chance(0.5)
+    c['ctor'] = rng.choice(['profile', 'profile+Ts', 'arrays'])     # any form: the reported response is the reference
     return c
 
 
@@ -888,6 +1070,27 @@ def op_tags(case, op):
             t.append('R7:set_num_antennas-none')
     if k == 'gen':
         t.append('R7:generate_impulse_response')
+        if op.get('n_type'):
+            t.append('R9:count-type')
+    if k == 'setant' and op.get('ant_type') and op['ant'] is not None:
+        t.append('R9:count-type')
+    if k == 'ir' and case['level'] == 'mu' and op.get('idx_type'):
+        t.append('R9:index-type')
+    if op.get('kw'):
+        t.append('R8:keyword-arguments')
+    if op.get('omit') and ((k == 'fx' and op['sel']['kind'] == 'all') or (k == 'pl' and op.get('s') is None
+                                                                          and case['level'] != 'mu')
+                           or (k == 'gen' and op['n'] == 1)):
+        t.append('R8:default-omitted')
+    if k == 'pl' and case['level'] == 'mu' and op.get('s') is None and op.get('p') is None:
+        t.append('R8:mu-pathloss-none')
+    if op.get('hetero'):
+        t.append('R10:heterogeneous-list')
+    if k == 'query':
+        t.append('R11:queries')
+        t.append('R13:derived-responses')
+    if k == 'fork':
+        t.append('R13:deepcopy-continued')
     return t
 
 
@@ -902,6 +1105,19 @@ def case_features(case):
         f.add('R2:profile-layout')
     if len(case['delays']) == 1:
         f.add('R5:single-tap')
+    if case.get('ctor', 'profile') != 'profile':
+        f.add('R8:ctor-' + case['ctor'])
+    if case.get('ctor_kw'):
+        f.add('R8:ctor-keywords')
+    if case.get('wrapper') and case['ant'] is not None and not case.get('late_ant') and (
+            case['level'] == 'tdl' or (case['level'] == 'su' and case['ant'][0] == case['ant'][1])):
+        f.add('R8:convenience-class')
+    if case.get('late_ant') and case['ant'] is not None and case['level'] != 'mu':
+        f.add('R8:antennas-by-setter')
+    if (case.get('n_type') and case['level'] == 'mu') or (case.get('ant_type') and case['ant'] is not None):
+        f.add('R9:count-type')
+    if len(case['delays']) >= 257 or (case['level'] == 'mu' and case['nrx'] * case['ntx'] >= 257):
+        f.add('R14:count>=257')
     if case['level'] == 'mu' and case['nrx'] == 1 and case['ntx'] == 1:
         f.add('R5:K=1')
     sw = False
